@@ -1560,7 +1560,9 @@ impl<'a, C: Crypto> TransportRunner<'a, C> {
                 }
                 Err(e) => {
                     error!("UNEXPECTED RX ERROR: {:?}", e);
-                    false
+                    // Do not retry right away: if the error persists, this loop
+                    // would spin without ever yielding to the other tasks
+                    true
                 }
             };
 
